@@ -252,6 +252,11 @@ func checkC02(c *Check) {
 	// ---- R6 the payment enumeration used by settlement selects exactly the account's own payments (key layout)
 	c.keyLayoutsRule("R6", []string{"x/escrow/keeper"}, 1, 2)
 
+	// ---- R7 a settlement hands every open payment to its caller (shared with C03-R2): AccountClose pays out exactly
+	// the payments it is handed, a payee left out never receives what accrued
+	c.settleHandsOnPayments("R7", settle)
+	c.Floor("R7", 4)
+
 	// ---- R5 SettledAt
 	nset := 0
 	for _, fn := range l.prodFuncs() {
